@@ -1,5 +1,5 @@
 # props/C10.py — a disabled log statement costs nothing and evaluates nothing lazily
-from props.log_common import LogCheck, VFILES
+from props.log_common import LogCheck, VFILES, static_assert_check
 
 
 class C10(LogCheck):
@@ -35,7 +35,7 @@ class C10(LogCheck):
 
     def extra(self, ctx):
         ctx.setdefault("coverage_extra", {})["exhaustive"] = (ctx["tier"] == "thorough")
-        ctx["coverage_extra"]["static_asserts"] = "60 per binary (10 loggers x 6 severities), 6 binaries: compiled = held"
+        static_assert_check(ctx, self.prop)
 
 
 CHECK = C10
